@@ -29,7 +29,7 @@ pub static SPEC: PropSpec = PropSpec {
     case_cpu_s: 120,
     shards: 0,
     run,
-    floors: &[("renamed_programs_agree", 80, 2_000), ("name_set_programs_agree", 60, 4_000), ("type_name_pairs_covered", 600, 861)],
+    floors: &[("renamed_programs_agree", 80, 2_000), ("name_set_programs_agree", 60, 4_000), ("type_name_pairs_covered", 600, 861), ("cross_package_projects_ok", 16, 16)],
     finish: None,
 };
 
@@ -391,6 +391,45 @@ fn run(ctx: &mut Ctx) {
     if ctx.replay_input.is_some() {
         println!("replay: the replay file stores the full source");
         return;
+    }
+    // two-package projects whose packages use the SAME names for different things (variants, structs, functions,
+    // traits, methods) and a generic enum instantiated at a primitive and at a type of the other package: the Go
+    // program is one flat namespace, every entity needs its own name there
+    {
+        let shared: [(&str, &str); 4] = [("Red", "Stop"), ("Pt", "Pq"), ("mk", "mk_main"), ("Show", "Display")];
+        // variant k: which of the four names Main shares with Lib (bit mask); 15 = all, 0 = none (control)
+        for mask in 0..16u32 {
+            if !ctx.mine(40_000 + mask as u64) {
+                continue;
+            }
+            let nm = |i: usize| if mask & (1 << i) != 0 { shared[i].0 } else { shared[i].1 };
+            let (var_red, st_pt, fn_mk, tr_show) = (nm(0), nm(1), nm(2), nm(3));
+            let lib = "package Lib\n\nenum Color { Red, Green(int32) }\n\nstruct Pt { x: int32 }\n\nfn mk(v: int32) -> Pt { Pt { x: v } }\n\ntrait Show {\n    fn show(Self) -> int32;\n}\n\nimpl Show for Color {\n    fn show(self: Color) -> int32 { match self { Color::Red => 1, Color::Green(k) => 2 + k } }\n}\n\nimpl Show for Pt {\n    fn show(self: Pt) -> int32 { 100 + self.x }\n}\n".to_string();
+            let main = format!(
+                "package Main\nimport Lib\n\nenum Signal {{ {red}, Yellow(int32) }}\n\nstruct {pt} {{ y: int32 }}\n\nfn {mk}(v: int32) -> {pt} {{ {pt} {{ y: v }} }}\n\ntrait {show} {{\n    fn show(Self) -> int32;\n}}\n\nimpl {show} for Signal {{\n    fn show(self: Signal) -> int32 {{ match self {{ Signal::{red} => 10, Signal::Yellow(k) => 20 + k }} }}\n}}\n\nimpl {show} for {pt} {{\n    fn show(self: {pt}) -> int32 {{ 1000 + self.y }}\n}}\n\nenum Maybe[T] {{ Just(T), Nothing }}\n\nfn code_i(m: Maybe[int32]) -> int32 {{ match m {{ Maybe::Just(k) => k, Maybe::Nothing => 0 - 1 }} }}\n\nfn code_c(m: Maybe[Lib::Color]) -> int32 {{ match m {{ Maybe::Just(c) => Lib::Show::show(c), Maybe::Nothing => 0 - 2 }} }}\n\nfn main() -> unit {{\n    let _ = string_println(int32_to_string(Lib::Show::show(Lib::Color::Red)) + \" \" + int32_to_string(Lib::Show::show(Lib::Color::Green(5))) + \" \" + int32_to_string({show}::show(Signal::{red})) + \" \" + int32_to_string({show}::show(Signal::Yellow(3))));\n    let _ = string_println(int32_to_string(Lib::Show::show(Lib::mk(4))) + \" \" + int32_to_string({show}::show({mk}(6))));\n    let _ = string_println(int32_to_string(code_i(Maybe::Just(8))) + \" \" + int32_to_string(code_i(Maybe::Nothing)) + \" \" + int32_to_string(code_c(Maybe::Just(Lib::Color::Green(1)))) + \" \" + int32_to_string(code_c(Maybe::Nothing)));\n    ()\n}}\n",
+                red = var_red,
+                pt = st_pt,
+                mk = fn_mk,
+                show = tr_show
+            );
+            let expected = "1 7 10 23\n104 1006\n8 -1 3 -2\n";
+            let files = vec![(std::path::PathBuf::from("Lib/lib.gom"), lib), (std::path::PathBuf::from("main.gom"), main)];
+            let label = format!("cross-package-names/{:04b}", mask);
+            ctx.case(&label.clone(), |c| {
+                if let Some((out, term, stderr)) = crate::exec::run_project(c, "C19", &label, &files, 2_000_000) {
+                    if out == expected && matches!(term, crate::goexec::Term::Ok) {
+                        c.count("cross_package_projects_ok", 1);
+                        c.nontrivial(hash_str(&label));
+                    } else {
+                        c.violation(
+                            format!("C19:cross-package-names-print-other-values:{:04b}", mask),
+                            format!("{} prints {:?} ({:?} {}), expected {:?}", label, out, term, util::truncate(&stderr, 80), expected),
+                            json!({"label": label, "files": files.iter().map(|(p, t)| json!({"path": p.display().to_string(), "text": t})).collect::<Vec<_>>(), "stdout": out}),
+                        );
+                    }
+                }
+            });
+        }
     }
     // A. renamings
     let opts = DiffOpts { prop: "C19", vet_is_violation: false, budget: 400_000, print: PrintOpts::default() };
